@@ -67,7 +67,21 @@ impl Write for AsyncWritableFile {
     ) -> Poll<Result<(), async_std::io::Error>> {
         let this = self.get_mut();
         let file = Pin::new(&mut this.content);
-        file.poll_flush(cx)
+        match file.poll_flush(cx) {
+            Poll::Ready(Ok(())) => {}
+            other => return other,
+        }
+        // like the sync MemoryFS handle: flushed data is visible to readers opened afterwards
+        match this.fs.try_write() {
+            Some(mut handle) => {
+                publish(&mut handle, &this.destination, this.content.get_ref().clone());
+                Poll::Ready(Ok(()))
+            }
+            None => {
+                cx.waker().wake_by_ref();
+                Poll::Pending
+            }
+        }
     }
     fn poll_close(
         self: Pin<&mut Self>,
@@ -84,25 +98,30 @@ impl Drop for AsyncWritableFile {
         let mut content = vec![];
         swap(&mut content, self.content.get_mut());
         let mut handle = futures::executor::block_on(self.fs.write());
-        if ensure_parent_directory(&handle.files, &self.destination).is_err() {
-            // the directory this file lived in is gone: like data written to an unlinked file, it goes nowhere
-            // (re-inserting the entry would leave a file without a parent directory)
+        publish(&mut handle, &self.destination, content);
+    }
+}
+
+/// Makes `content` the bytes of the file at `destination` (flush and drop of a write handle)
+fn publish(handle: &mut AsyncMemoryFsImpl, destination: &str, content: Vec<u8>) {
+    if ensure_parent_directory(&handle.files, destination).is_err() {
+        // the directory this file lived in is gone: like data written to an unlinked file, it goes nowhere
+        // (re-inserting the entry would leave a file without a parent directory)
+        return;
+    }
+    if let Some(file) = handle.files.get(destination) {
+        if file.file_type == VfsFileType::Directory {
+            // the path was turned into a directory while this handle was open: never replace it
             return;
         }
-        if let Some(file) = handle.files.get(&self.destination) {
-            if file.file_type == VfsFileType::Directory {
-                // the path was turned into a directory while this handle was open: never replace it
-                return;
-            }
-        }
-        handle.files.insert(
-            self.destination.clone(),
-            AsyncMemoryFile {
-                file_type: VfsFileType::File,
-                content: Arc::new(content),
-            },
-        );
     }
+    handle.files.insert(
+        destination.to_string(),
+        AsyncMemoryFile {
+            file_type: VfsFileType::File,
+            content: Arc::new(content),
+        },
+    );
 }
 
 struct AsyncReadableFile {
